@@ -1,3 +1,13 @@
+import Arimaa.Gen.Bridge.GameState_valid_actions
+import Arimaa.Gen.Bridge.GameState_valid_actions_no_rep
+import Arimaa.Gen.Bridge.GameState_is_terminal
+import Arimaa.Gen.Bridge.GameState_has_move
+import Arimaa.Gen.Bridge.GameState_can_pass
+import Arimaa.Gen.Bridge.GameState_transposition_hash
+import Arimaa.Gen.Bridge.GameState_current_step
+import Arimaa.Gen.Bridge.GameState_take_action
+import Arimaa.Gen.Bridge.GameState_trapped_animal_for_action
+import Arimaa.Gen.Bridge.GameState_piece_board_for_step
 import Arimaa.Props.C19
 import Arimaa.Lemmas.RsAgreeOffered
 import Arimaa.Lemmas.RsAgreeResult
@@ -17,7 +27,7 @@ of the Rust text that alters behaviour breaks an obligation of this file without
 find the input.  Here: no public query and no offered action of the regenerated code returns `panic` on a state satisfying the play invariant; each returns exactly the value of the total model.
 -/
 namespace Arimaa
-open Gen Spec GameState Arimaa.Gen.Rs Arimaa.Rt
+open Gen Spec GameState Arimaa.Gen.Rs Arimaa.Rt Arimaa.Gen.Bridge
 
 theorem C19_guard_ok {α : Type} {p : Bool} {v : α} (h : p = false) : Res.guard p v = .ok v := by
   subst h; rfl
@@ -41,26 +51,26 @@ theorem C19_code_no_panic_play (s : GameState) (pp : PlayPhase) (h : PlayInv s p
     (∀ i, i ≤ pp.step → GameState_piece_board_for_step s i = .ok (s.pieceBoardForStep i)) := by
   obtain ⟨⟨h1, h2, h3, h4, h5, h6, h7, _, h9⟩, hact, hpbs, _⟩ := C19_no_panic_play s pp h hh hm
   refine ⟨?_, ?_, ?_, ?_, ?_, ?_, ?_, ?_, ?_, ?_⟩
-  · rw [RsAgree.valid_actions_eq]; exact C19_guard_ok h1
-  · rw [RsAgree.valid_actions_no_rep_eq]; exact C19_guard_ok h2
-  · rw [RsAgree.is_terminal_eq]; exact C19_guard_ok h3
-  · rw [RsAgree.has_move_eq]; exact C19_guard_ok h4
-  · rw [RsAgree.can_pass_eq]; exact C19_guard_ok h5
-  · rw [RsAgree.can_pass_eq]; exact C19_guard_ok h6
-  · rw [RsAgree.transposition_hash_eq]; exact C19_guard_ok h7
-  · rw [RsAgree.current_step]; exact C19_guard_ok h9
+  · rw [bridge_GameState_valid_actions, RsAgree.valid_actions_eq]; exact C19_guard_ok h1
+  · rw [bridge_GameState_valid_actions_no_rep, RsAgree.valid_actions_no_rep_eq]; exact C19_guard_ok h2
+  · rw [bridge_GameState_is_terminal, RsAgree.is_terminal_eq]; exact C19_guard_ok h3
+  · rw [bridge_GameState_has_move, RsAgree.has_move_eq]; exact C19_guard_ok h4
+  · rw [bridge_GameState_can_pass, RsAgree.can_pass_eq]; exact C19_guard_ok h5
+  · rw [bridge_GameState_can_pass, RsAgree.can_pass_eq]; exact C19_guard_ok h6
+  · rw [bridge_GameState_transposition_hash, RsAgree.transposition_hash_eq]; exact C19_guard_ok h7
+  · rw [bridge_GameState_current_step, RsAgree.current_step]; exact C19_guard_ok h9
   · intro a ha
     obtain ⟨hp, ht, _⟩ := hact a ha
-    exact ⟨by rw [RsAgree.take_action_eq]; exact C19_guard_ok ht,
-      by rw [RsAgree.trapped_animal_for_action_eq]; exact C19_guard_ok hp⟩
+    exact ⟨by rw [bridge_GameState_take_action, RsAgree.take_action_eq]; exact C19_guard_ok ht,
+      by rw [bridge_GameState_trapped_animal_for_action, RsAgree.trapped_animal_for_action_eq]; exact C19_guard_ok hp⟩
   · intro i hi
-    rw [RsAgree.piece_board_for_step_eq]; exact C19_guard_ok (hpbs i hi)
+    rw [bridge_GameState_piece_board_for_step, RsAgree.piece_board_for_step_eq]; exact C19_guard_ok (hpbs i hi)
 
 /-- the overflow point F4 is a panic of the regenerated code as well: the model-level statement and the code agree -/
 theorem C19_code_overflow_point (s : GameState) (pp : PlayPhase) (hph : s.phase = .play pp)
     (hside : s.p1Turn = false) (hmax : s.moveNo = usizeMax) :
     GameState_take_action s .pass = .panic := by
-  rw [RsAgree.take_action_eq]
+  rw [bridge_GameState_take_action, RsAgree.take_action_eq]
   have : s.takeActionPanics .pass = true := by
     simp [takeActionPanics, passPanics, hph, usizeAddPanics, hside, hmax]
   rw [this]; rfl
